@@ -299,6 +299,8 @@ def replay(cex):
             import shutil
             shutil.rmtree(d, ignore_errors=True)
         return bool(bad), {'how': 'real gambit.util.io on temporary files', 'mismatches': bad}
+    if 'first_hex' in cex:
+        return C01.replay_pure(cex)
     seqs = [bytes.fromhex(h) for h in cex['seqs_hex']]
     k, prefix = cex['k'], cex['prefix']
     if kind == 'file':
@@ -369,6 +371,10 @@ def main(tier):
             if len(p) == 1 and sum(lens) > 7:
                 continue
             specs.append(('props.C06', 'ob_file', dict(k=k, prefix=p, lens=list(lens), second=second)))
+    # the same file gives the same signature whatever the process computed (or failed to compute) before: C01's history obligation
+    for k, p, extra in ((2, 'AT', 1), (12, 'A', 0)):
+        n = k + len(p) + extra
+        specs.append(('props.C01', 'ob_pure', dict(k=k, prefix=p, lens1=[n, 1], n2=n)))
     for nb in (2, 3, 4):
         for mode in ('rt', 'rb'):
             specs.append(('props.C06', 'ob_compression_case', dict(nbytes=nb, mode=mode)))
